@@ -57,6 +57,9 @@ ASSUMPTIONS = [
     "reference receive counter: advanced by every numbered data frame of the open connection that carries the expected number (KNX 03_03_04 §5), "
     "whether or not the client application consumes it; 'immediately preceding number' is taken modulo 16 even before the first frame",
     "a frame that arrived before the data frame of a request was first transmitted is not a response to that request (bucket response:stale)",
+    "number judgements (returned response, T_ACK window) are skipped - counted in notes - after an in-sequence frame that no request returned or a T_Connect of the peer on the open connection: "
+    "the statement does not fix the expected number there (a client with an occupied response slot may have discarded the frame)",
+    "a T_ACK is attributed to the latest not yet acknowledged data frame with that number from that device received up to the iteration the T_ACK went out, preferring a frame that satisfies the rule",
     "time bound of a request = 1/rate_limit + 3 s + 3 s (ACK, one repetition) + 6 s (response), constants read from the module",
 ]
 
